@@ -708,8 +708,10 @@ func (x *Exec) convert(st *State, a *Val, from, to types.Type) (*Val, error) {
 			c := *a
 			c.T = to
 			return &c, nil
-		case fb.Kind() == types.UnsafePointer || tbb.Kind() == types.UnsafePointer:
-			return nil, fmt.Errorf("UNSUPPORTED unsafe.Pointer conversion")
+		case fb.Kind() == types.UnsafePointer && tbb.Kind() == types.UnsafePointer:
+			c := *a
+			c.T = to
+			return &c, nil
 		case fb.Info()&types.IsFloat != 0 && tbb.Info()&types.IsFloat != 0 && basicBits(fb) == basicBits(tbb):
 			c := *a
 			c.T = to
@@ -729,7 +731,26 @@ func (x *Exec) convert(st *State, a *Val, from, to types.Type) (*Val, error) {
 		x.bulkCopy(st, types.Typ[types.Byte], r, tb.BV(64, 0), a.C[2], a.C[0], a.C[1])
 		return &Val{T: to, C: []*Term{r, tb.BV(64, 0), a.C[2], a.C[2]}}, nil
 	}
-	// pointer <-> unsafe.Pointer
+	// pointer <-> unsafe.Pointer: the address is kept, so a later load at another pointee
+	// type reads the components of that type at the same location (a string header is the
+	// prefix of a slice header, which is the one reinterpretation the code in scope performs)
+	if pt, ok := fu.(*types.Pointer); ok && tok && tbb.Kind() == types.UnsafePointer {
+		c := *a
+		c.T = to
+		if c.A == nil {
+			c.A = x.addrOf(a, pt.Elem())
+		}
+		x.trusted["unsafe pointer cast modelled as a view of the same components: "+typeKey(from)] = true
+		return &c, nil
+	}
+	if _, ok := tu.(*types.Pointer); ok && fok && fb.Kind() == types.UnsafePointer {
+		if a.A == nil {
+			return nil, fmt.Errorf("UNSUPPORTED conversion from unsafe.Pointer of unknown provenance")
+		}
+		c := *a
+		c.T = to
+		return &c, nil
+	}
 	return nil, fmt.Errorf("UNSUPPORTED conversion %s -> %s", from, to)
 }
 
